@@ -364,7 +364,8 @@ def finish(ctx, level="proof"):
         seen.add(sig)
         if nrep >= 8:
             break
-        path = os.path.join(VERIF, "replays", "%s-%s-%d.json" % (prop, ctx.seed, nrep))
+        tag = "" if ctx.repo == "/repo" else "-" + hashlib.sha1(ctx.repo.encode()).hexdigest()[:6]
+        path = os.path.join(VERIF, "replays", "%s-%s%s-%d.json" % (prop, ctx.seed, tag, nrep))
         rep = dict(rep); rep.update({"property": prop, "seed": ctx.seed, "tier": ctx.tier, "signature": sig,
                                      "failing_input_found": bool(found), "repo": ctx.repo})
         json.dump(rep, open(path, "w"), indent=1, default=str)
